@@ -54,4 +54,11 @@ RigidFrame ==
 (* mutual inverses and isometry on the lattice: p -> ECEF displacement -> p, lengths preserved *)
 InverseOn(p) == ToEnuOfDisp(ToEcefDisp(p)) = [i \in 1..3 |-> Den * Den * p[i]]
 IsometryOn(p) == Dot3(ToEcefDisp(p), ToEcefDisp(p)) = Den * Den * Dot3(p, p)
+(* ---- anchors at GENERAL latitude / longitude (irrational triad): the property's relations are checked on residuals measured  *)
+(* by the harness in units of 0.01 mm (ints): the reference maps to the origin, h metres above it to (0, 0, h), a point slightly  *)
+(* east / north of the anchor has positive first / second coordinate and the other one small, distances between local points   *)
+(* equal ECEF distances, and every conversion pair is an inverse pair.  Tolerance: 1 mm = 100 units.                            *)
+ResidualsOK(t) ==
+  /\ t.originRes <= 100 /\ t.upRes <= 100 /\ t.isoRes <= 100 /\ t.invEcefRes <= 100 /\ t.invGeoRes <= 100
+  /\ t.eastOK /\ t.northOK /\ t.properOK
 =============================================================================
